@@ -395,6 +395,70 @@ def c15_8(ctx):
     return out
 
 
+def c15_9(ctx):
+    """MEMO: a recovered / decrypted secret is not remembered under a key that leaves out the passphrase or the shares"""
+    from sa.memo import memo_obligation
+    return memo_obligation(ctx, ["shamir"], "a secret decrypted with one passphrase would be returned for another")
+
+
+def c15_10(ctx):
+    """PAIRING: what generate_shares splits is the output of encrypt(secret, id, exponent, passphrase) on every path, and what
+    recover returns is the output of decrypt(..., passphrase) on every path -- recovery always decrypts, so a split of anything
+    but the encrypted payload (e.g. the plaintext when the passphrase is empty) recovers a different secret"""
+    from sa.dataflow import rd_of
+    out = []
+    spec = "shamir:ShareSet.generate_shares"
+    mod, fn = rl.get(ctx, spec)
+    cfg = cfg_of(fn)
+    rd = rd_of(fn)
+    ps = param_names(fn)
+    sites = rl.find_calls(fn, "split_secret")
+    if not sites:
+        raise AnalysisError("generate_shares: split_secret not called")
+    for n, c in sites:
+        a = c.args[0]
+        vals = []
+        if isinstance(a, ast.Name):
+            for d in rd.reaching(n.id, a.id):
+                g = rd.gen.get(d, {}).get(a.id)
+                vals.append((d, g[1] if g and g[0] == "val" else None))
+        else:
+            vals.append((n.id, a))
+        bad = None
+        for d, v in vals:
+            if not (isinstance(v, ast.Call) and call_name(v) == "encrypt"):
+                bad = (d, v)
+                break
+            oo = origins(fn, d, v)
+            missing = [p for p in ps if p.startswith(("pass", "exp")) and ("param:" + p) not in oo]
+            if missing:
+                bad = (d, v)
+                break
+        if bad is None:
+            out.append(ctx.ok(spec, "the payload split into shares is encrypt(secret, id, exponent, passphrase) on every path (%d definition(s))" % len(vals), c, mod, key="split-encrypted"))
+        else:
+            d, v = bad
+            out.append(ctx.bad(spec, "on a path the payload split into shares is `%s` (line %s), not the encrypted secret: recovery always runs decrypt, so these shares "
+                                     "recover a different secret" % (ast.unparse(v) if v is not None else "?", cfg.nodes[d].lineno), cfg.nodes[d].ast or c, mod, key="split-encrypted"))
+    spec = "shamir:ShareSet.recover"
+    mod, fn = rl.get(ctx, spec)
+    cfg = cfg_of(fn)
+    pw = next((p for p in param_names(fn) if p.startswith("pass")), None)
+    rets = [n for n in cfg.returns() if n.ast is not None]
+    if not rets or pw is None:
+        raise AnalysisError("recover: no return / passphrase parameter")
+    for n in rets:
+        v = expand(fn, n.id, n.ast.value) if n.ast.value is not None else None
+        if isinstance(v, ast.Call) and call_name(v) == "decrypt" and ("param:" + pw) in origins(fn, n.id, n.ast.value):
+            out.append(ctx.ok(spec, "line %d returns decrypt(..., %s)" % (n.lineno, pw), n.ast, mod, key="returns-decrypted"))
+        elif isinstance(n.ast.value, ast.Attribute) and ast.unparse(n.ast.value).startswith("self."):
+            continue  # a remembered value: judged by the MEMO rule C15.9
+        else:
+            out.append(ctx.bad(spec, "line %d returns `%s`, which is not the decryption of the interpolated secret under the passphrase given" % (
+                n.lineno, ast.unparse(n.ast.value)[:80] if n.ast.value is not None else "None"), n.ast, mod, key="returns-decrypted"))
+    return out
+
+
 OBLIGATIONS = [
     ("C15.1", "GUARD", c15_1),
     ("C15.2", "GUARD", c15_2),
@@ -404,5 +468,7 @@ OBLIGATIONS = [
     ("C15.6", "TABLE", c15_6),
     ("C15.7", "RANGE", c15_7),
     ("C15.8", "BITS layout", c15_8),
+    ("C15.9", "MEMO", c15_9),
+    ("C15.10", "PAIRING", c15_10),
 ]
 FLOORS = {"C15.1": 4, "C15.3": 3, "C15.4": 7, "C15.5": 3, "C15.6": 8, "C15.7": 8, "C15.8": 2}
